@@ -13,7 +13,7 @@ EXPLANATION = (
     ' Ok path; (R4) the repetition draw fires at a count of exactly 3; (R5) the occurrence table and the max-count stack are written '
     "only by count / uncount (imports the C05.R4 rows: no 'forget old positions' shortcut, no sharing between board copies). Counts "
     'along real games are NOT decided. R1 accepts the update as entry().and_modify().or_insert(), get_mut, or match on '
-    'Entry::{Occupied, Vacant} with get_mut / into_mut.'
+    'Entry::{Occupied, Vacant} with get_mut / into_mut. (R6) = C16.R6: the game reports the verdict computed now.'
 )
 ASSUMPTIONS = [
     "HashMap::entry/and_modify/or_insert/get and Vec::push/pop have their documented meaning",
